@@ -940,7 +940,7 @@ def check_C18(tier):
     return finish('C18', rep, gate)
 
 
-DIRS_SCENARIOS = {'shared_new_dir_deep': ['a/b/x', 'a/b/y'], 'sibling_dirs': ['a/b/x', 'a/c/y']}
+DIRS_SCENARIOS = {'shared_new_dir_deep': ['a/b/x', 'a/b/y'], 'sibling_dirs': ['a/b/x', 'a/c/y'], 'mixed_depth': ['a/b/x', 'a/y']}
 # ... and with failing builds (FB.ConcDirsF): which threads' functions raise
 DIRSF_SCENARIOS = {'one_fails': (['a/x', 'a/y'], [0]), 'both_fail': (['a/b/x', 'a/b/y'], [0, 1]), 'fail_alone_in_dir': (['a/x', 'c/y'], [0])}
 
@@ -1039,7 +1039,7 @@ def explore_threads(prop, tier, rep, names, bound, cap):
     return total
 
 
-C09_SCENARIOS = ['shared_new_dir', 'shared_new_dir_deep', 'sibling_dirs', 'one_fails', 'both_fail', 'fail_alone_in_dir',
+C09_SCENARIOS = ['shared_new_dir', 'shared_new_dir_deep', 'sibling_dirs', 'mixed_depth', 'one_fails', 'both_fail', 'fail_alone_in_dir',
                  'stale_dir', 'stale_dir_queries', 'queries_vs_build', 'subbuilds', 'three_threads', 'dup_file', 'dup_sub',
                  'dup_sub_cached', 'dup_sub_json_equal', 'rebuild_two_then_fail', 'build_two_then_fail', 'overwrite_foreign_then_fail']
 
